@@ -905,6 +905,12 @@ class sptensor:
         >>> S.innerprod(K)
         3.0
         """
+        if (
+            isinstance(other, (ttb.sptensor, ttb.tensor, ttb.ktensor, ttb.ttensor))
+            and self.shape != other.shape
+        ):
+            assert False, "Inner product must be between tensors of the same shape"
+
         # If all entries are zero innerproduct must be 0
         if self.nnz == 0:
             return 0
